@@ -327,6 +327,10 @@ def render(plan):
 
     if plan.get("fwd"):
         out += ["- object: R", "  fields:", "    t:", "      reference: tn"]
+    if plan.get("fwd2"):
+        # the target table is forward-referenced both by nickname and by table name before its
+        # nicknamed template runs (both reserved ids must be used by rows of T, none may be lost)
+        out += ["- object: R", "  fields:", "    t:", "      reference: tn", "    t2:", f"      reference: {T}"]
     if plan.get("noise"):
         out += obj("", "X", plan["noise"])
     for c in plan["feeds"]:
@@ -411,6 +415,11 @@ def gen_plan(rng, zeros):
             c["count"] = {"lit": 1} if rng.random() < 0.5 else None
             plan["fwd"] = rng.random() < 0.6
         plan["feeds"].append(c)
+    if (shape in ("top", "top2", "all") and not plan.get("fwd") and rng.random() < 0.35
+            and not any(c.get("nick") for c in plan["feeds"])):
+        plan["feeds"][0]["nick"] = True
+        plan["feeds"][0]["count"] = {"lit": rng.randint(2, 3)}
+        plan["fwd2"] = True
     if rng.random() < 0.4:
         plan["noise"] = gen_spec(rng, True, "seq")
     plan["hidden"] = rng.random() < 0.2
